@@ -694,8 +694,8 @@ func (k *kernel) resolve(item string) (move, bool) {
 			}
 			return move{"cancel", "ctx"}, true
 		}
-		if k.cancelled[g] || k.s.At(g) == "" {
-			return move{}, false
+		if k.cancelled[g] || k.s.At(g) == "" || k.s.At(g) == "op.pre" {
+			return move{}, false // only a call in progress can have its context cancelled
 		}
 		return move{"cancel", g}, true
 	}
